@@ -20,6 +20,9 @@ Inductive smd :=
 | SMnew (tbl : list (Z * jv)) (keep : bool)  (* return a new dict {"data": enc, "x": 1[, "data_id"]} *)
 | SMextra (tbl : list (Z * jv))             (* data["t"] = enc(node.data), "data" left alone; the
                                                decoder pops item["t"] (pinned-suite style) *)
+| SMstock (tbl : list (Z * jv))            (* the stock DictWrapper.serialize_mapper: returns a COPY of the
+                                               wrapped dict ([tbl]: data object -> JDict of the wrapped
+                                               entries); "data"/"data_id" are dropped with the old dict *)
 | SMguid (tbl : list (Z * jv)).             (* as SMextra, and the id is moved to another key:
                                                data["g"] = data.pop("data_id"); the decoder pops
                                                "t" and restores item["data_id"] = item.pop("g") *)
@@ -49,6 +52,7 @@ Definition sm_of (m : smd) : smapper :=
       [(k_data, enc_of tbl i); (k_x, JInt 1)] ++
       (if keep then match dget k_data_id res with Some v => [(k_data_id, v)] | None => [] end else [])
   | SMextra tbl => fun i res => dset k_t (enc_of tbl i) res
+  | SMstock tbl => fun i res => match enc_of tbl i with JDict d => d | _ => res end
   | SMguid tbl => fun i res =>
       dset k_t (enc_of tbl i)
            (match dget k_data_id res with
@@ -90,7 +94,7 @@ Definition dd_guid (dt : list (jv * res info)) : dmapper :=
            end.
 
 Definition dd_for (m : smd) (dt : list (jv * res info)) : dmapper :=
-  match m with SMextra _ => dd_head dt | SMguid _ => dd_guid dt | _ => dd_of dt end.
+  match m with SMextra _ => dd_head dt | SMstock _ => dd_head dt | SMguid _ => dd_guid dt | _ => dd_of dt end.
 
 Inductive case :=
 | CRound (f : forest) (m : smd) (subs : list Z) (dt : list (jv * res info)) (next : Z)
